@@ -111,7 +111,8 @@ def build(sc, record=True):
                 zs = [zl[0] + f * L for f in st_[1]]
                 m.compositionProfile.addProfileCompositionStep(e, st_[2], zs)
         bc = sc["bc"][e]
-        m.setBC(bc[0], bc[1], bc[2], bc[3], element=e)
+        if e not in sc.get("bc_default", ()):       # elements listed there rely on the model's default (closed) boundaries
+            m.setBC(bc[0], bc[1], bc[2], bc[3], element=e)
     if "cache" in sc:
         m.useCache(sc["cache"])
     if "hash_s" in sc:
